@@ -1107,3 +1107,98 @@ Proof.
   - apply existsb_exists. exists (FsNotify f ops). split; [exact Hin|]. simpl.
     rewrite Nat.eqb_refl, (fs_dispatch_fixed_reread ops Hops). reflexivity.
 Qed.
+
+(** * Part VI — the HTTP endpoint in terms of the fetch outcomes alone *)
+
+(** what the polls of endpoint [e] showed, oldest first *)
+Definition http_outcomes (e : nat) (h : list http_event) : list sobs :=
+  map (fun er => obs_of_outcome (outcome_of (snd er))) (filter (fun er => Nat.eqb (fst er) e) h).
+
+Lemma http_seen_from O : forall h k m e,
+  fold_left seen_step (http_trace_from O k h) m (Sid e) = rev (http_outcomes e h) ++ m (Sid e).
+Proof.
+  induction h as [|[e' r] rest IH]; intros k m e; [reflexivity|].
+  rewrite http_trace_from_cons. simpl fold_left. rewrite IH.
+  unfold seen_step; simpl. unfold seen_add. rewrite sid_eqb_Sid.
+  unfold http_outcomes; simpl. rewrite (Nat.eqb_sym e' e).
+  destruct (Nat.eqb e e'); simpl; [rewrite <- app_assoc; reflexivity | reflexivity].
+Qed.
+
+(** for ALL sequences of polls and fetch outcomes: what is loaded from endpoint [e]
+    is the latest valid content among the outcomes of its polls *)
+Theorem http_latest_valid O h e :
+  (forall s, deletable O s = true) ->
+  active_of (http_trace O h) (Sid e) = latest_valid (accepts O) (rev (http_outcomes e h)).
+Proof.
+  intro Hdel. rewrite (trace_ok_active (accepts O) _ (http_trace_ok O Hdel h)).
+  unfold seen_of, http_trace. rewrite http_seen_from. rewrite app_nil_r. reflexivity.
+Qed.
+
+(** * Part VII — no reload without a change, counted over the whole history *)
+
+Section FsCount.
+Variable O : oracle.
+Hypothesis Hdel : forall s, deletable O s = true.
+
+Definition settledb (k : option cid) (w : content) : bool :=
+  option_eqb Nat.eqb (target_st O k (obs_of_content w)) k.
+
+Lemma option_eqb_eq (a b : option cid) : option_eqb Nat.eqb a b = true <-> a = b.
+Proof.
+  destruct a as [x|], b as [y|]; simpl; split; intro H; try discriminate; try reflexivity.
+  - apply Nat.eqb_eq in H. congruence.
+  - inversion H. apply Nat.eqb_refl.
+Qed.
+
+Lemma expected_len a b : length (expected_calls a b) <= 1.
+Proof. destruct a as [x|], b as [y|]; simpl; try lia. destruct (Nat.eqb x y); simpl; lia. Qed.
+
+Lemma fs_count_from f : forall h s,
+  length (calls_on (Sid f) (flat_map h_calls (snd (fs_run_from O true s h))))
+  <= length (filter (is_set f) h) + (if settledb (fs_known s f) (fs_world s f) then 0 else 1).
+Proof.
+  induction h as [|e r IH]; intro s; [simpl; lia|].
+  change (snd (fs_run_from O true s (e :: r)))
+    with (fs_handle O true s e :: snd (fs_run_from O true (fst (fs_step O true s e)) r)).
+  simpl flat_map. rewrite calls_on_app, app_length. simpl filter.
+  set (s1 := fst (fs_step O true s e)). specialize (IH s1).
+  destruct (is_set f e) eqn:Eset.
+  - (* the file changes: no call, one more change *)
+    destruct e as [g w| |]; simpl in Eset; try discriminate. unfold s1 in *. simpl in IH |- *.
+    repeat match goal with
+           | H : context [if ?b then _ else _] |- _ => destruct b
+           | |- context [if ?b then _ else _] => destruct b
+           end; simpl in *; lia.
+  - pose proof (fs_event_effect O Hdel true s e f Eset (or_introl eq_refl)) as [Heff _]. cbv zeta in Heff.
+    assert (Hw : fs_world s1 f = fs_world s f) by (apply world_step_other; exact Eset).
+    assert (Hk : fs_known s1 f = h_st (fs_handle O true s e) f) by reflexivity.
+    rewrite Hw, Hk in IH.
+    set (o := obs_of_content (fs_world s f)) in *. set (k := fs_known s f) in *.
+    destruct Heff as [[E1 E2]|[E1 E2]]; rewrite E2.
+    + rewrite E1 in IH. unfold s1 in IH. simpl in IH |- *. exact IH.
+    + rewrite E1 in IH.
+      assert (Hs' : settledb (target_st O k o) (fs_world s f) = true).
+      { unfold settledb. fold o. apply option_eqb_eq. apply target_st_idem. }
+      rewrite Hs' in IH.
+      destruct (settledb k (fs_world s f)) eqn:Es.
+      * unfold settledb in Es. fold o in Es. apply option_eqb_eq in Es. rewrite Es.
+        assert (expected_calls k k = []) as -> by (destruct k; simpl; [rewrite Nat.eqb_refl|]; reflexivity).
+        unfold s1 in IH. simpl in IH |- *. lia.
+      * pose proof (expected_len k (target_st O k o)) as Hl. unfold s1 in IH.
+        change (fst (fs_step O true s e)) with {| fs_world := world_step (fs_world s) e; fs_known := h_st (fs_handle O true s e) |} in IH.
+        lia.
+Qed.
+
+(** W3: over any history — repeated, stale, out-of-order notifications, initial
+    loads — the accepted processor calls concerning a file are at most as many as
+    the file's changes: nothing is ever applied twice *)
+Theorem fs_applied_at_most_once h f :
+  length (calls_on (Sid f) (flat_map t_calls (fs_trace O true h))) <= length (filter (is_set f) h).
+Proof.
+  assert (E : flat_map t_calls (fs_trace O true h) = flat_map h_calls (snd (fs_run O true h))).
+  { unfold fs_trace, fs_trace_from, fs_run. generalize fs_init. induction h as [|e r IH]; intro s; [reflexivity|].
+    simpl. f_equal. exact (IH (fst (fs_step O true s e))). }
+  rewrite E. pose proof (fs_count_from f h fs_init) as H. simpl in H. unfold fs_run. lia.
+Qed.
+
+End FsCount.
